@@ -756,7 +756,7 @@ func adSessionExec(s adSession, em *emitter, maxHung int) {
 		}
 		def := 12 * time.Second // typical: 0.03 .. 0.2 s
 		if s.Adapter == "ecdsa" {
-			def = 60 * time.Second // typical: 1 .. 2 s
+			def = 40 * time.Second // typical: 1 .. 2 s
 		}
 		lines, _, _, late := adRunPhase(sg.T, s.Adapter, s.IDs, s.Thr, "sign", shares, adHex(sg.Digest), others, sg.Probe, adDur(sg.TimeoutMs, def))
 		if late && sg.TimeoutMs <= 0 && !adPanicked(lines) {
